@@ -19,6 +19,8 @@ def job_name(j):
         s += '-' + j['extra']
     if j.get('alphabet'):
         s += '-meta'
+    if j.get('kind2'):
+        s += '-with-%s' % j['kind2']
     if j.get('split'):
         s += '-c0in%x_%x' % (j['split'][0][0], j['split'][-1][1])
     return s
@@ -27,7 +29,7 @@ def job_name(j):
 def expand_split(jobs):
     out = []
     for j in jobs:
-        if j['N'] >= 2 and j['fmt'] == 'zinc' and not j.get('split') and not j.get('alphabet'):
+        if j['N'] >= 2 and j['fmt'] == 'zinc' and not j.get('split') and not j.get('alphabet') and not j.get('kind2'):
             from .textworker import ALPHABET
             alpha = ALPHABET.get(j['kind'])
             for dom in FIRST_CHAR_SPLIT:
